@@ -7,11 +7,16 @@ correspondence of checks/c17.py), for
   * every ring size 2^k (k ≤ 30; the kernel allows at most 2^15 / 2^16 entries),
   * every index shift (SQE128 / CQE32 flags),
   * EVERY initial counter value c, cc < 2^32 (so the 32-bit wrap is covered without 2^32 steps),
-  * every interleaving of application steps {get+fill, flush, reap} and kernel steps
-    {consume k, post vs} at call granularity (induction over the op list).
-The `orig_*` theorems at the end show, on the model of the code *before* the two C17 repairs,
-that the repairs were necessary (the same witnesses were observed on the real code through
-harness/c17 in debug and release builds before the repair; see known_findings.d/C17.jsonl).
+  * every interleaving of application steps {get+fill, flush, reap, reread} and kernel steps
+    {consume k, post vs} at call granularity (induction over the op list) — and, for the content of a
+    reaped completion, BELOW call granularity: since /repo bc63d9e `get_next_cqe` gives the slot of the
+    entry it returned back to the kernel only on the next call (`release_pending`; the kernel-visible
+    head lags by at most one, `cq_head_lag`), so the entry may be read through the returned reference
+    after any number of kernel steps (`cq_content_held`, op `reread`).
+The `orig_*` theorems at the end show, on the model of the code *before* the C17 repairs (`Code.orig`)
+and before that last repair (`Code.eagerRelease`), that the repairs were necessary (the same witnesses
+were observed on the real code through harness/c17 / harness/c18 before the repairs; see
+known_findings.d/C17.jsonl and C18.jsonl).
 -/
 import TinyVerif.Proofs.RingInv
 namespace TinyVerif.Ring
@@ -28,7 +33,7 @@ structure Params (k kc c cc : Nat) : Prop where
   hcc : cc < W
 
 theorem reached_inv {k kc c cc : Nat} (p : Params k kc c cc) (flags : Nat) (ops : List Op) :
-    ∃ inq unpub cinq, Inv k kc c cc (reached flags k kc c cc ops) inq unpub cinq :=
+    ∃ inq unpub cinq hold, Inv k kc c cc (reached flags k kc c cc ops) inq unpub cinq hold :=
   inv_run ops (inv_init flags k kc c cc p.hk p.hkc p.hc p.hcc)
 
 /-- Every submission the kernel consumed is, in order and with identical slot and content, a
@@ -38,7 +43,7 @@ reordered or altered). -/
 theorem sq_in_order_once {k kc c cc : Nat} (p : Params k kc c cc) (flags : Nat) (ops : List Op) :
     (reached flags k kc c cc ops).consumed <+: (reached flags k kc c cc ops).flushed ∧
     (reached flags k kc c cc ops).flushed <+: (reached flags k kc c cc ops).filled := by
-  obtain ⟨inq, unpub, cinq, h⟩ := reached_inv p flags ops
+  obtain ⟨inq, unpub, cinq, hold, h⟩ := reached_inv p flags ops
   exact ⟨⟨inq, h.flushed_eq.symm⟩, ⟨unpub, h.filled_eq.symm⟩⟩
 
 /-- A slot handed out by `get_next_sqe_slot` is not the slot of any entry that was filled and not
@@ -47,7 +52,7 @@ theorem sq_no_reuse {k kc c cc : Nat} (p : Params k kc c cc) (flags : Nat) (ops 
     (v i : Nat) (hs : (step .fixed (reached flags k kc c cc ops) (.get v)).2 = .slot i) :
     ∀ e ∈ (reached flags k kc c cc ops).filled.drop (reached flags k kc c cc ops).consumed.length,
       e.slot ≠ i := by
-  obtain ⟨inq, unpub, cinq, h⟩ := reached_inv p flags ops
+  obtain ⟨inq, unpub, cinq, hold, h⟩ := reached_inv p flags ops
   generalize reached flags k kc c cc ops = s at *
   obtain ⟨h1, h2⟩ := inv_get h v
   by_cases hlt : inq.length + unpub.length < 2 ^ k
@@ -70,7 +75,7 @@ theorem sq_capacity {k kc c cc : Nat} (p : Params k kc c cc) (flags : Nat) (ops 
     (reached flags k kc c cc ops).consumed.length ≤ (reached flags k kc c cc ops).filled.length ∧
     ((step .fixed (reached flags k kc c cc ops) (.get v)).2 = .noSlot ↔
       (reached flags k kc c cc ops).filled.length - (reached flags k kc c cc ops).consumed.length = 2 ^ k) := by
-  obtain ⟨inq, unpub, cinq, h⟩ := reached_inv p flags ops
+  obtain ⟨inq, unpub, cinq, hold, h⟩ := reached_inv p flags ops
   generalize reached flags k kc c cc ops = s at *
   obtain ⟨h1, h2⟩ := inv_get h v
   have hl := h.filled_len
@@ -90,7 +95,7 @@ theorem sq_capacity {k kc c cc : Nat} (p : Params k kc c cc) (flags : Nat) (ops 
 theorem sq_slot_in_bounds {k kc c cc : Nat} (p : Params k kc c cc) (flags : Nat) (ops : List Op)
     (v i : Nat) (hs : (step .fixed (reached flags k kc c cc ops) (.get v)).2 = .slot i) :
     i < 2 ^ k * 2 ^ sqShift (reached flags k kc c cc ops) := by
-  obtain ⟨inq, unpub, cinq, h⟩ := reached_inv p flags ops
+  obtain ⟨inq, unpub, cinq, hold, h⟩ := reached_inv p flags ops
   generalize reached flags k kc c cc ops = s at *
   obtain ⟨h1, h2⟩ := inv_get h v
   by_cases hlt : inq.length + unpub.length < 2 ^ k
@@ -103,7 +108,7 @@ theorem sq_slot_in_bounds {k kc c cc : Nat} (p : Params k kc c cc) (flags : Nat)
 theorem sq_flush_count {k kc c cc : Nat} (p : Params k kc c cc) (flags : Nat) (ops : List Op) :
     (step .fixed (reached flags k kc c cc ops) .flush).2 =
       .flushed ((reached flags k kc c cc ops).filled.length - (reached flags k kc c cc ops).consumed.length) := by
-  obtain ⟨inq, unpub, cinq, h⟩ := reached_inv p flags ops
+  obtain ⟨inq, unpub, cinq, hold, h⟩ := reached_inv p flags ops
   generalize reached flags k kc c cc ops = s at *
   rw [(inv_flush h).1, h.filled_len]
   congr 1; omega
@@ -112,19 +117,19 @@ theorem sq_flush_count {k kc c cc : Nat} (p : Params k kc c cc) (flags : Nat) (o
 completion the kernel posted: `reaped` is a prefix of `posted`. -/
 theorem cq_in_order_once {k kc c cc : Nat} (p : Params k kc c cc) (flags : Nat) (ops : List Op) :
     (reached flags k kc c cc ops).reaped <+: (reached flags k kc c cc ops).posted := by
-  obtain ⟨inq, unpub, cinq, h⟩ := reached_inv p flags ops
+  obtain ⟨inq, unpub, cinq, hold, h⟩ := reached_inv p flags ops
   exact ⟨cinq, h.posted_eq.symm⟩
 
 /-- `get_next_cqe` returns `None` exactly when every posted completion has been reaped. -/
 theorem cq_progress {k kc c cc : Nat} (p : Params k kc c cc) (flags : Nat) (ops : List Op) :
     (step .fixed (reached flags k kc c cc ops) .reap).2 = .noCqe ↔
       (reached flags k kc c cc ops).posted = (reached flags k kc c cc ops).reaped := by
-  obtain ⟨inq, unpub, cinq, h⟩ := reached_inv p flags ops
+  obtain ⟨inq, unpub, cinq, hold, h⟩ := reached_inv p flags ops
   generalize reached flags k kc c cc ops = s at *
   obtain ⟨h1, h2⟩ := inv_reap h
   cases hc : cinq with
   | nil =>
-    rw [h1 hc, h.posted_eq, hc]
+    rw [(h1 hc).1, h.posted_eq, hc]
     simp
   | cons e rest =>
     rw [(h2 e rest hc).1, h.posted_eq, hc]
@@ -140,16 +145,62 @@ theorem cq_content {k kc c cc : Nat} (p : Params k kc c cc) (flags : Nat) (ops :
     (hs : (step .fixed (reached flags k kc c cc ops) .reap).2 = .cqe v) :
     ((reached flags k kc c cc ops).posted[(reached flags k kc c cc ops).reaped.length]?).map Ent.val
       = some v := by
-  obtain ⟨inq, unpub, cinq, h⟩ := reached_inv p flags ops
+  obtain ⟨inq, unpub, cinq, hold, h⟩ := reached_inv p flags ops
   generalize reached flags k kc c cc ops = s at *
   obtain ⟨h1, h2⟩ := inv_reap h
   cases hc : cinq with
-  | nil => rw [h1 hc] at hs; cases hs
+  | nil => rw [(h1 hc).1] at hs; cases hs
   | cons e rest =>
     rw [(h2 e rest hc).1] at hs
     injection hs with hs
     rw [h.posted_eq, hc]
     simp [hs]
+
+/-- **cq_content below call granularity** (what was false before /repo bc63d9e): the entry `get_next_cqe` returned a
+reference to is not overwritten by ANY later step — kernel posts included, with the completion ring full or not —
+until `get_next_cqe` is called again: reading through the reference at any later moment (`reread`) yields the
+completion that was handed out. -/
+theorem cq_content_held {k kc c cc : Nat} (p : Params k kc c cc) (flags : Nat) (ops : List Op) (v : Nat)
+    (hs : (step .fixed (reached flags k kc c cc ops) .reap).2 = .cqe v)
+    (later : List Op) (hl : ∀ op ∈ later, op ≠ .reap) :
+    ∃ e, (step .fixed (reached flags k kc c cc ops) .reap).1.reaped = (reached flags k kc c cc ops).reaped ++ [e] ∧
+      e.val = v ∧
+      (run .fixed (step .fixed (reached flags k kc c cc ops) .reap).1 later).1.cqMem e.slot = v ∧
+      (step .fixed (run .fixed (step .fixed (reached flags k kc c cc ops) .reap).1 later).1 .reread).2 = .cqe v := by
+  obtain ⟨inq, unpub, cinq, hold, h⟩ := reached_inv p flags ops
+  generalize reached flags k kc c cc ops = s at *
+  obtain ⟨h1, h2⟩ := inv_reap h
+  cases hc : cinq with
+  | nil => rw [(h1 hc).1] at hs; cases hs
+  | cons e rest =>
+    obtain ⟨a1, a2, _, a4⟩ := h2 e rest hc
+    rw [a1] at hs
+    injection hs with hs
+    obtain ⟨_, _, _, b1, b2⟩ := inv_run_hold later hl a4
+    have hm := b1.held_content e (by simp)
+    refine ⟨e, a2, hs, by rw [hm, hs], ?_⟩
+    show (match (run .fixed (step .fixed s .reap).1 later).1.reaped.getLast? with
+      | none => ((run .fixed (step .fixed s .reap).1 later).1, Out.noCqe)
+      | some e' => ((run .fixed (step .fixed s .reap).1 later).1,
+          Out.cqe ((run .fixed (step .fixed s .reap).1 later).1.cqMem e'.slot))).2 = _
+    rw [b2, a2, List.getLast?_concat]
+    simp only [hm, hs]
+
+/-- the kernel-visible completion head lags behind what the application reaped by at most one entry: the one
+whose reference may still be alive (`release_pending`) -/
+theorem cq_head_lag {k kc c cc : Nat} (p : Params k kc c cc) (flags : Nat) (ops : List Op) :
+    (reached flags k kc c cc ops).cqKHead =
+      (cc + ((reached flags k kc c cc ops).reaped.length - if (reached flags k kc c cc ops).relPending then 1 else 0)) % W ∧
+    ((reached flags k kc c cc ops).relPending = true → (reached flags k kc c cc ops).reaped ≠ []) := by
+  obtain ⟨inq, unpub, cinq, hold, h⟩ := reached_inv p flags ops
+  generalize reached flags k kc c cc ops = s at *
+  have hl := h.hold_len
+  have hle := h.hold_le
+  refine ⟨by rw [h.ckhead_eq, hl], ?_⟩
+  intro hp hnil
+  rw [if_pos hp] at hl
+  rw [hnil, hl] at hle
+  simp at hle
 
 /-- `needs_wakeup` answers exactly whether the kernel set IORING_SQ_NEED_WAKEUP, whatever the other bits of the SQ
 flags word (CQ overflow, task-run) are: with it an application following the wake-up protocol of an SQPOLL ring
@@ -181,6 +232,17 @@ theorem orig_debug_panics_at_wrap :
 theorem orig_hides_completion_after_wrap (release : Bool) :
     (run (.orig release) (init 0 1 1 0 4294967295) [.post [5], .reap]).2 = [.posted 1, .noCqe] := by
   cases release <;> decide
+
+/-- before /repo bc63d9e (`Code.eagerRelease`): `get_next_cqe` had already released the slot when it returned the
+reference; on a full completion ring (here: 1 entry) the kernel's next post lands in the entry the caller is
+still holding — reading through the reference afterwards shows completion 2 instead of 1.  `cq_content_held` is
+the negation of this for the current code: the second post finds no room (`posted 0`) and the reference still
+shows 1. -/
+theorem orig_held_entry_overwritten :
+    (run .eagerRelease (init 0 1 0 0 0) [.post [1], .reap, .post [2], .reread]).2 =
+      [.posted 1, .cqe 1, .posted 1, .cqe 2] ∧
+    (run .fixed (init 0 1 0 0 0) [.post [1], .reap, .post [2], .reread, .reap, .post [2], .reread, .reap]).2 =
+      [.posted 1, .cqe 1, .posted 0, .cqe 1, .noCqe, .posted 1, .cqe 2, .cqe 2] := by decide
 
 /-- the same inputs on the current code -/
 theorem fixed_at_wrap :
